@@ -13,34 +13,34 @@ import (
 
 // WorkerResult is what one worker process reports to the driver.
 type WorkerResult struct {
-	Prop        string            `json:"prop"`
-	From, To    int               `json:"-"`
-	Runs        int               `json:"runs"`
-	Nontrivial  int               `json:"nontrivial"`
-	Steps       int               `json:"steps"`
-	Choices     int               `json:"choices"`
-	Txns        int               `json:"txns"`
-	Commits     int               `json:"commits"`
-	Aborts      int               `json:"aborts"`
-	Ops         int               `json:"ops"`
-	Dumps       int               `json:"dumps"`
-	Reads       int               `json:"reads"`
-	Checks      int               `json:"checks"`
-	SimTimeNs   int64             `json:"sim_time_ns"`
-	Faults      map[string]int    `json:"faults"`
-	Probes      map[string]int    `json:"probes"`
-	Hooks       map[string]int    `json:"hooks"`
-	Ilv         []uint64          `json:"ilv"`        // distinct interleaving signatures
-	EndStates   []uint64          `json:"end_states"` // distinct end states
-	Inconclusive map[string]int   `json:"inconclusive"`
-	Violations  []ViolationReport `json:"violations"`
-	Samples     []json.RawMessage `json:"samples"`
-	WallS       float64           `json:"wall_s"`
-	Stopped     string            `json:"stopped,omitempty"`
-	Next        int               `json:"next"`
-	Tainted     bool              `json:"tainted,omitempty"`
-	Distinct    []uint64          `json:"distinct"`
-	Traces      []uint64          `json:"traces,omitempty"`
+	Prop         string            `json:"prop"`
+	From, To     int               `json:"-"`
+	Runs         int               `json:"runs"`
+	Nontrivial   int               `json:"nontrivial"`
+	Steps        int               `json:"steps"`
+	Choices      int               `json:"choices"`
+	Txns         int               `json:"txns"`
+	Commits      int               `json:"commits"`
+	Aborts       int               `json:"aborts"`
+	Ops          int               `json:"ops"`
+	Dumps        int               `json:"dumps"`
+	Reads        int               `json:"reads"`
+	Checks       int               `json:"checks"`
+	SimTimeNs    int64             `json:"sim_time_ns"`
+	Faults       map[string]int    `json:"faults"`
+	Probes       map[string]int    `json:"probes"`
+	Hooks        map[string]int    `json:"hooks"`
+	Ilv          []uint64          `json:"ilv"`        // distinct interleaving signatures
+	EndStates    []uint64          `json:"end_states"` // distinct end states
+	Inconclusive map[string]int    `json:"inconclusive"`
+	Violations   []ViolationReport `json:"violations"`
+	Samples      []json.RawMessage `json:"samples"`
+	WallS        float64           `json:"wall_s"`
+	Stopped      string            `json:"stopped,omitempty"`
+	Next         int               `json:"next"`
+	Tainted      bool              `json:"tainted,omitempty"`
+	Distinct     []uint64          `json:"distinct"`
+	Traces       []uint64          `json:"traces,omitempty"`
 }
 
 // ViolationReport is one violation found by a worker, with its replay file.
@@ -269,14 +269,14 @@ func sanitize(s string) string {
 // sampleOf is a compact rendering of a case for the evidence file.
 func sampleOf(cs *Case) any {
 	type sample struct {
-		Run     int          `json:"run"`
-		World   string       `json:"world"`
-		Cfg     Config       `json:"cfg"`
-		Schema  []ColSpec    `json:"schema"`
-		Steps   []Step       `json:"steps,omitempty"`
-		Threads []ThreadProg `json:"threads,omitempty"`
-		Faults  []Fault      `json:"faults,omitempty"`
-		Strategy string      `json:"strategy,omitempty"`
+		Run      int          `json:"run"`
+		World    string       `json:"world"`
+		Cfg      Config       `json:"cfg"`
+		Schema   []ColSpec    `json:"schema"`
+		Steps    []Step       `json:"steps,omitempty"`
+		Threads  []ThreadProg `json:"threads,omitempty"`
+		Faults   []Fault      `json:"faults,omitempty"`
+		Strategy string       `json:"strategy,omitempty"`
 	}
 	s := sample{Run: cs.Run, World: cs.World, Cfg: cs.Cfg, Schema: cs.Schema, Faults: cs.Faults, Strategy: cs.Strategy}
 	if len(cs.Steps) > 6 {
